@@ -3,6 +3,7 @@ MIR on seeded inputs and must agree with the native build (kernel replay binary 
 import datetime, math, os, random
 from fractions import Fraction
 from ..common import *
+from .values import Enum
 from . import interp, smt, chrono_model
 from .values import *
 from .. import kreplay
@@ -74,7 +75,14 @@ def run(prog, n=24, rel_tol=1e-9):
         st = interp.State()
         pc_ = st.alloc(params)
         outs = I.run_body(htt, [Ref(pc_, ()), I.enum_variant("Prayer::" + p), hour], st=st)
-        if len(outs) != 1 or outs[0].kind != "return" or outs[0].value.fields[0] != nat.get("secs"):
+        mine = None
+        if len(outs) == 1 and outs[0].kind == "return":
+            v = outs[0].value
+            if isinstance(v, Enum) and v.ty in ("Result", "Option"):     # a tree whose hour_to_time is fallible
+                okn = "Ok" if v.ty == "Result" else "Some"
+                v = v.pay[okn][0] if okn in v.pay and v.pay[okn] and v.disc == (0 if v.ty == "Result" else 1) else None
+            mine = ("t", v.fields[0] if v is not None else None)
+        if mine is None or mine[1] != nat.get("secs"):
             raise Inconclusive("translator broken: hour_to_time(%s, %s, %r, off %r): interpreter %r vs native %r" % (mode, p, hour, off, outs[:1], nat))
         checked += 1
     # Julian Day
